@@ -90,6 +90,8 @@ MUTANTS = [
      "algebraically the same, but expm1(U-V) overflows for strongly absorbing targets at high fluence and long exposure"),
     ("C14", "silent", A, "                precision_correction = W * (exp(-U)-exp(-V))", "                precision_correction = W * exp(-U) - W * exp(-V)",
      "distributed product, every exponent still non-positive"),
+    ("C15", "fire", A, "        initial = max(-log(target/Ia)/La for Ia, La in data if Ia > 0)", "        initial = max(-log(target/Ia)/La for Ia, La in data)", "the start value divides by the activity of every product, zero ones included (reverse of the fix)"),
+    ("C15", "silent", A, "        initial = max(-log(target/Ia)/La for Ia, La in data if Ia > 0)", "        initial = max(log(Ia/target)/La for Ia, La in data if Ia > 0)", "same start value, other spelling"),
     # ---- C10
     ("C10", "fire", CS, "        table[Z].crystal_structure = dict(struct) if struct is not None else None", "        table[Z].crystal_structure = struct", "module-level dicts shared again"),
     ("C10", "fire", C, "            if el.table != PUBLIC_TABLE_NAME:\n                loader()\n", "", "the setter no longer loads the public table when a private table is written first (reverse of the fix)"),
